@@ -84,6 +84,8 @@ def _edge_map_form(fgi, env):
                 continue
             k = keyexprs[0]
             txt = ast.unparse(k)
+            if {f"({a}, {b})", f"({b}, {a})"} <= {ast.unparse(x) for x in keyexprs}:
+                return ("ok", k.lineno, "both ordered pairs are looked up")
             mn, mx = {f"min({a}, {b})", f"min({b}, {a})"}, {f"max({a}, {b})", f"max({b}, {a})"}
             if isinstance(k, ast.Tuple) and len(k.elts) == 2:
                 e0, e1 = (ast.unparse(e) for e in k.elts)
@@ -376,7 +378,8 @@ def run(index, tier="quick", seed=0) -> Result:
     rng = [n for n in ast.walk(fgi.node) if isinstance(n, ast.For) and isinstance(n.iter, ast.Call) and ast.unparse(n.iter.func) == "range"
            and isinstance(n.target, ast.Name)]
     combos = [n for n in ast.walk(fgi.node) if isinstance(n, ast.Call) and ast.unparse(n.func).endswith("combinations")]
-    edge_map = _edge_map_form(fgi, envg)
+    _pair_loops = [n for n in rng if len(n.iter.args) == 2 and any(n is m_ for o_ in rng if o_ is not n for m_ in ast.walk(o_))]
+    edge_map = None if (combos or _pair_loops) else _edge_map_form(fgi, envg)     # all-pairs formulations are judged as before
     if combos:
         res.ok("NBR-2", "Polyhedron._get_face_intersections:all-pairs", nontrivial=False)
     elif edge_map is not None:
@@ -638,6 +641,14 @@ def _merge_orientation(res, index):
                     f"alone (`{ast.unparse(n.test)[:60]}`): for a facet whose plane passes through the origin both offsets are 0, the test never "
                     f"flips, and oppositely wound coplanar triangles are not merged")
             return
+    for n in ast.walk(fn.node):
+        if isinstance(n, ast.If) and any(isinstance(a, ast.Assign) and isinstance(a.value, ast.UnaryOp) and isinstance(a.value.op, ast.USub) for a in n.body):
+            dots = [x for x in ast.walk(n.test) if (isinstance(x, ast.Call) and ast.unparse(x.func).split(".")[-1] in ("dot", "inner", "vdot"))
+                    or (isinstance(x, ast.BinOp) and isinstance(x.op, ast.MatMult))]
+            sl = [x for x in ast.walk(n.test) if isinstance(x, ast.Subscript) and ast.unparse(x.slice) in (":3", ":-1", "0:3")]
+            if dots and len(sl) >= 2:
+                res.ok("MRG-2", key, sample={"orientation chosen from the normals": ast.unparse(n.test)[:100]})
+                return
     ors = [n for n in ast.walk(fn.node) if isinstance(n, ast.BoolOp) and isinstance(n.op, ast.Or) and len(n.values) == 2]
     for o in ors:
         calls = [v for v in o.values if isinstance(v, ast.Call) and ast.unparse(v.func).split(".")[-1] in ("allclose", "isclose", "array_equal") and len(v.args) >= 2]
